@@ -57,6 +57,8 @@ def shard(job) -> dict:
         out = rtrdflib.run_job(job, judge)
     elif job[0] == "N":
         out = ns_job(job)
+    elif job[0] == "M":
+        return manual_shard(job)
     else:
         out = RT.run_job(job, judge, include_out_of_domain=True)
     out["extra"] = {"distinct": len(out["extra"].get("digests", ()))}
@@ -105,6 +107,153 @@ def ns_job(job) -> dict:
     return acc.out()
 
 
+# ------------------------------------------------------------ manual API search
+class Manual:
+    """A real stream driven call by call through its public methods (enroll, stream_options,
+    namespace_declaration, triple/quad/graph, flow.to_stream_frame); every frame it hands out
+    is decoded at once by an incremental reference decoder."""
+
+    def __init__(self, api: str, cls: str, preset, frame_size: int) -> None:
+        self.api, self.cls = api, cls
+        opts = DR.make_options(cls, preset, frame_size, True, ns=True,
+                               generalized=api == "generic", rdf_star=api == "generic")
+        self.stream = DR.g_stream(cls, opts) if api == "generic" else DR.r_stream(cls, opts)
+        self.ref = jspec.Decoder()
+        self.pending: list = []  # events handed to the stream, not yet seen in a frame
+
+    def conv(self, t):
+        return T.to_generic(t) if self.api == "generic" else T.to_rdflib(t)
+
+    def deliver(self, frame, complete: bool) -> list[str]:
+        import io  # noqa: PLC0415
+
+        from pyjelly.serialize.ioutils import write_delimited  # noqa: PLC0415
+
+        if frame is None:
+            return []
+        out = io.BytesIO()
+        write_delimited(frame, out)
+        try:
+            (fr,) = jwire.read_delimited(out.getvalue())
+            evs = self.ref.frame(fr)
+        except (jwire.WireError, jspec.SpecViolation) as e:
+            return [f"frame rejected by the reference decoder: {e}"]
+        finally:
+            self.ref.audit.clear()
+        got = [("st", T.norm_st(e[1])) if e[0] == "st" else e for e in evs if e[0] != "opt"]
+        want = self.pending if complete else self.pending[: len(got)]
+        if got != want:
+            return [f"frame decodes to {got}, the calls made were {self.pending}"]
+        self.pending = self.pending[len(got):]
+        return []
+
+    def step(self, ev) -> list[str]:
+        st = self.stream
+        k = ev[0]
+        if k == "enroll":
+            st.enroll()
+            return []
+        if not st.enrolled:
+            return []  # (nothing else is legal before enroll(); the event is a no-op here)
+        if k == "opt":
+            st.stream_options()
+            return []
+        if k == "flush":
+            return self.deliver(st.flow.to_stream_frame(), True)
+        if k == "ns":
+            st.namespace_declaration(ev[1], ev[2])
+            self.pending.append(("ns", ev[1], ("I", ev[2])))
+            return []
+        if k == "graph":
+            _, g, triples = ev
+            self.pending += [("st", T.norm_st((*t, g))) for t in triples]
+            fails: list[str] = []
+            for frame in st.graph(self.conv(g), [tuple(self.conv(x) for x in t) for t in triples]):
+                fails += self.deliver(frame, False)
+            return fails
+        stmt = ev[1]
+        terms = tuple(self.conv(x) for x in stmt)
+        self.pending.append(("st", T.norm_st(stmt)))
+        frame = st.triple(terms) if self.cls == "triple" else st.quad(terms)
+        return self.deliver(frame, True)
+
+
+def manual_step(m: Manual, ev) -> list[str]:
+    try:
+        return m.step(ev)
+    except Exception as e:  # noqa: BLE001
+        return [f"{ev}: {type(e).__name__}: {e}"]
+
+
+def manual_canon(m: Manual):
+    from mc.explore import bfs as B  # noqa: PLC0415
+
+    r = m.ref
+    tabs = tuple((t.size, tuple(sorted(t.slots.items())), t.last_entry) if t else None
+                 for t in (r.names, r.prefixes, r.datatypes))
+    return (B.dump(m.stream.encoder), B.dump(m.stream.repeated_terms), B.dump(list(m.stream.flow)),
+            m.stream.enrolled, getattr(m.stream, "failed", None), tabs, r.last_prefix, r.last_name,
+            tuple(sorted(r.prev.items())), r.graph_open, r.graph, r.options is None,
+            tuple(m.pending))
+
+
+MANUAL_SCOPES = {
+    # name: (api, cls, preset, frame_size)
+    # (every event fits: the statements need at most 3 prefixes and 1 datatype)
+    "g-triple": ("generic", "triple", (8, 3, 1), 2),
+    "g-quad": ("generic", "quad", (8, 0, 1), 3),
+    "g-graph": ("generic", "graph", (8, 3, 1), 2),
+    "r-triple": ("rdflib", "triple", (8, 0, 1), 3),
+    "r-quad": ("rdflib", "quad", (8, 3, 1), 2),
+    "r-graph": ("rdflib", "graph", (8, 4, 1), 3),
+}
+
+
+def manual_events(cls: str) -> list:
+    from mc.terms import DEFAULT, I, L  # noqa: PLC0415
+
+    a, b = I("http://a/x"), I("http://b#y")
+    tr = [(a, a, L("x")), (a, b, L("x", None, "http://a/x")), (b, I("z"), a)]
+    evs: list = [("enroll",), ("opt",), ("flush",), ("ns", "p", "http://c/"), ("ns", "", "http://b#y"),
+                 ("ns", "q", "z")]
+    if cls == "triple":
+        evs += [("st", t) for t in tr]
+    elif cls == "quad":
+        evs += [("st", (*t, g)) for t, g in zip(tr, (DEFAULT, b, b))]
+    else:
+        evs += [("graph", DEFAULT, ()), ("graph", b, (tr[0],)), ("graph", b, (tr[2], tr[0])),
+                ("graph", DEFAULT, (tr[1],))]
+    return evs
+
+
+def manual_shard(job) -> dict:
+    from mc.explore import bfs as B  # noqa: PLC0415
+
+    _, name, cap = job
+    api, cls, preset, fs = MANUAL_SCOPES[name]
+    DR.ensure_rdflib_plugin()
+    evs = manual_events(cls)
+    acc = pool.Acc()
+    res = B.bfs(init=lambda: Manual(api, cls, preset, fs), events=lambda st: evs,
+                step=manual_step, canon=manual_canon, max_states=cap, ev_json=_to_list)
+    acc.counters["manual_transitions"] = res.transitions
+    acc.extra = {"manual": name, "api": api, "cls": cls, "preset": list(preset), "frame_size": fs,
+                 "states": res.states, "transitions": res.transitions, "closed": res.closed,
+                 "max_depth": res.max_depth, "depth_complete": res.depth_complete,
+                 "events": len(evs)}
+    for f in res.failures:
+        acc.violation({"api": api, "cls": cls, "writer": "manual-calls", "fail": "manual"},
+                      f"stream driven call by call ({name}): history {f['path']}: {f['fails']}",
+                      {"family": "M", "manual": name, "path": f["path"]}, f["fails"])
+    for p in res.sample_paths[:1]:
+        acc.sample({"manual": name, "history": p})
+    return acc.out()
+
+
+def _to_list(x):
+    return [_to_list(v) for v in x] if isinstance(x, tuple) else x
+
+
 def run(ctx) -> None:
     L = 3 if ctx.quick else 4
     jobs = RT.core_jobs(L, parts=4 if ctx.quick else 16) + RT.entry_jobs(2 if ctx.quick else 3)
@@ -122,8 +271,11 @@ def run(ctx) -> None:
     nb = len(c14.binding_lists(2))
     njobs = [("N", api, cls, pi, lo, hi) for api in ("generic", "rdflib") for cls in DR.CLASSES
              for pi in range(len(c14.PRESETS)) for lo, hi in pool.split_range(nb, 2)]
-    merged = pool.merge(pool.pmap(shard, jobs + rjobs + njobs))
+    mjobs = [("M", name, 1200 if ctx.quick else 150000) for name in MANUAL_SCOPES]
+    merged = pool.merge(pool.pmap(shard, mjobs + jobs + rjobs + njobs))
     ctx.add(merged)
+    searches = sorted((e for e in merged["extras"] if "manual" in e), key=lambda e: e["manual"])
+    merged["extras"] = [e for e in merged["extras"] if "manual" not in e]
     if merged["evals"] - merged["counters"].get("ns_cases", 0) != expected:
         from mc.env import HarnessError  # noqa: PLC0415
 
@@ -132,6 +284,9 @@ def run(ctx) -> None:
         evaluations=merged["evals"],
         distinct_nontrivial=sum(e["distinct"] for e in merged["extras"]),
         streams_validated=merged["counters"].get("streams", 0),
+        states=sum(e["states"] for e in searches),
+        transitions=sum(e["transitions"] for e in searches),
+        manual_call_searches=searches,
         out_of_domain=merged["counters"].get("out_of_domain", 0),
         exhaustive=True,
         samples=merged["samples"],
@@ -139,7 +294,9 @@ def run(ctx) -> None:
             "all byte strings produced by the C01 space (generic API) and the C02 space (rdflib), "
             "each decoded by the independent jwire+jspec reference decoder in strict mode and "
             "compared with the input; distinct_nontrivial = distinct byte strings validated "
-            "(counted per shard)"
+            "(counted per shard); plus breadth-first searches over the public calls of a real "
+            "stream (enroll, stream_options, namespace_declaration, triple/quad/graph, flush) in "
+            "any order, every frame decoded at once by an incremental reference decoder"
         ),
     )
     ctx.assumptions += ["jwire/jspec transcribe rdf.proto and the Jelly spec correctly "
@@ -147,6 +304,15 @@ def run(ctx) -> None:
 
 
 def replay(case: dict) -> list:
+    if case.get("family") == "M":
+        DR.ensure_rdflib_plugin()
+        m = Manual(*MANUAL_SCOPES[case["manual"]])
+        out: list = []
+        for ev in case["path"]:
+            out = manual_step(m, T.from_json(ev))
+            if out:
+                return out
+        return out
     if case.get("family") == "N":
         from mc.checks import c14  # noqa: PLC0415
 
